@@ -98,6 +98,39 @@ def _run_worker(mode: str, spec: dict, env: dict, workdir: str, tag: str, timeou
     return res
 
 
+def changed_lines(repo: str, pad: int = 6) -> dict:
+    """Source lines of the package touched by uncommitted changes of the audited tree (`git diff HEAD`), padded
+    by a few lines: "file:line" as the simulator names them. Used only to *prioritise* crash points and
+    pre-emption (change-aware testing); empty when the tree is clean or not a git checkout."""
+    out: dict = {"files": [], "lines": []}
+    try:
+        p = subprocess.run(["git", "-C", repo, "diff", "-U0", "HEAD", "--", "exponax"], capture_output=True, text=True, timeout=60)
+        if p.returncode != 0:
+            return out
+        cur = None
+        lines: set = set()
+        files: set = set()
+        for ln in p.stdout.splitlines():
+            if ln.startswith("+++ "):
+                path = ln[4:].strip()
+                cur = path[2:] if path.startswith("b/") else None
+                if cur and cur.startswith("exponax/") and cur.endswith(".py"):
+                    cur = cur[len("exponax/"):]
+                    files.add(cur)
+                else:
+                    cur = None
+            elif ln.startswith("@@") and cur:
+                m = re.match(r"@@ -\d+(?:,\d+)? \+(\d+)(?:,(\d+))? @@", ln)
+                if m:
+                    start, cnt = int(m.group(1)), int(m.group(2) or 1)
+                    for i in range(max(1, start - pad), start + max(cnt, 1) + pad):
+                        lines.add(f"{cur}:{i}")
+        out = {"files": sorted(files), "lines": sorted(lines)}
+    except Exception:  # noqa: BLE001 - prioritisation only
+        pass
+    return out
+
+
 def shape_family(key: str) -> str:
     """Operations with the same (D, N) share most XLA programs; keeping them in one process avoids recompiling."""
     m = re.search(r"D=(\d)(?:,N=(\d+))?", key)
@@ -143,6 +176,7 @@ class Explorer:
         replay_dir: str | None = None,
         label: str = "explore",
         plans_per_worker: int | None = None,
+        crash_points: int | None = 0,
     ):
         self.repo = os.path.abspath(repo)
         self.jobs = jobs
@@ -159,6 +193,8 @@ class Explorer:
         self.replay_dir = replay_dir or os.path.join(HERE, "replays")
         self.label = label
         self.plans_per_worker = plans_per_worker
+        self.crash_points = crash_points
+        self.focus = changed_lines(self.repo)
         self.workdir = tempfile.mkdtemp(prefix="exponax-dst-")
         global XLA_CACHE_DIR
         XLA_CACHE_DIR = os.path.join(self.workdir, "xla-cache")
@@ -214,6 +250,7 @@ class Explorer:
         chunks = contiguous_chunks(ordered, costs, max(1, n_chunks))
         self.ref_chunks = chunks
         self.reference = {False: {}, True: {}}
+        self.op_lines: dict = {}
         self.reference_arrays = {False: [], True: []}
         t0 = time.monotonic()
         jobs = []
@@ -223,7 +260,7 @@ class Explorer:
                 for i, ch in enumerate(chunks):
                     arr = os.path.join(self.workdir, f"ref-{int(x64)}-{i}.arrays.pkl")
                     self.reference_arrays[x64].append(arr)
-                    jobs.append((x64, ex.submit(run_worker, "ref", {"ops": ch, "arrays_out": arr}, env, self.workdir, f"ref-{int(x64)}-{i}", 1800)))
+                    jobs.append((x64, ex.submit(run_worker, "ref", {"ops": ch, "arrays_out": arr, "trace_lines": not x64}, env, self.workdir, f"ref-{int(x64)}-{i}", 1800)))
             for x64, fut in jobs:
                 res = fut.result()
                 if "worker_error" in res:
@@ -233,6 +270,8 @@ class Explorer:
                 if res["session"]["default_float"] != want:
                     self.errors.append(f"reference session dtype {res['session']['default_float']} != {want}")
                 self.reference[x64].update(res["table"])
+                for k, ls in res.get("lines", {}).items():
+                    self.op_lines[k] = ls
         self.reference_arrays = {x: [p for p in ps if os.path.exists(p)] for x, ps in self.reference_arrays.items()}
         raised = {("float64" if x else "float32"): sorted(k for k, v in t.items() if v[0] != "ok") for x, t in self.reference.items()}
         self.report["reference"] = {
@@ -246,7 +285,7 @@ class Explorer:
 
     # ---------------------------------------------------------------- 3. simulate
     def make_plans(self):
-        from sim import make_plan
+        from sim import make_crash_probe_plan, make_plan
 
         seeds = [self.seed_base + i for i in range(self.n_seeds)]
         plans = {False: [], True: []}
@@ -257,8 +296,26 @@ class Explorer:
             order = sorted(self.keys, key=lambda k: (shape_family(k), hashlib.sha256(f"{self.seed_base}-{x64}-{k}".encode()).hexdigest()))
             slices = contiguous_chunks(order, {k: 1 for k in order}, len(mine))
             slices += [[] for _ in range(len(mine) - len(slices))]
-            for s, mand in zip(mine, slices):
+            for j, (s, mand) in enumerate(zip(mine, slices)):
                 plans[x64].append(make_plan(s, self.keys, self.groups, mandatory=mand if self.cover else None))
+        # crash-point enumeration: source lines of the package executed by the selected operations; each probe
+        # abandons one operation at its first arrival at one line. `crash_points` probes per invocation, drawn
+        # (by seed) without replacement from the distinct lines; all of them if crash_points is None.
+        line_ops: dict = {}
+        for k, ls in getattr(self, "op_lines", {}).items():
+            for ln in ls:
+                line_ops.setdefault(ln, []).append(k)
+        lines = sorted(line_ops, key=lambda ln: hashlib.sha256(f"{self.seed_base}-{ln}".encode()).hexdigest())
+        n_probe = len(lines) if self.crash_points is None else min(self.crash_points, len(lines))
+        # change-aware prioritisation: executed lines inside uncommitted hunks of the audited tree come first
+        focus = [ln for ln in lines if ln in set(self.focus["lines"])][:240]
+        rest = [ln for ln in lines if ln not in set(focus)][:n_probe]
+        self.crash_point_plan = {"distinct_source_lines_executed": len(lines), "lines_probed": len(focus) + len(rest), "of_which_in_uncommitted_hunks": len(focus)}
+        for j, ln in enumerate(focus + rest):
+            cands = sorted(line_ops[ln])
+            tgt = cands[int(hashlib.sha256(f"{self.seed_base}-{ln}-op".encode()).hexdigest(), 16) % len(cands)]
+            x64 = bool(j % 2)
+            plans[x64].append(make_crash_probe_plan(1_000_000_000 + self.seed_base + j, self.keys, self.groups, self.ops, target=tgt, at_line=ln))
         return plans
 
     @staticmethod
@@ -274,6 +331,7 @@ class Explorer:
             "wall_cap": self.run_wall_cap,
             "record_trace": record_trace,
             "cold_start": cold_start,
+            "focus_files": self.focus["files"],
         }
 
     def run_plans(self, plans_by_session, label, shift=0, record_trace=False):
@@ -322,6 +380,7 @@ class Explorer:
         for r in runs:
             if r.get("error"):
                 self.errors.append(f"simulated run {r['seed']}: {r['error']}")
+                self.failed_plans = getattr(self, "failed_plans", []) + [r]
         good = [r for r in runs if not r.get("error")]
         self.runs = good
 
@@ -383,6 +442,11 @@ class Explorer:
             "real_code": "exponax (whole package from the audited tree, unmodified), jax, equinox, XLA:CPU, real Python threads",
             "stubs": "time.* is served by the simulated clock; all other seams (os.urandom, random, numpy.random, open, os.environ, socket, subprocess, Thread.start, jax.config.update) pass through after being counted; who runs next is decided by the seeded scheduler only",
             "harness_errors": len(self.errors),
+            "crash_point_enumeration": dict(
+                getattr(self, "crash_point_plan", {}),
+                scripted_crashes_fired=sum(1 for r in good if r["plan"].get("crash_at") and r["stats"]["faults"]["crash"] > 0),
+                probe_runs=sum(1 for r in good if r["plan"].get("crash_at")),
+            ),
         }
         self.report["seams"] = {"hits_total": self.seam_totals, "hits_from_package": self.seam_pkg_hits}
         return good
@@ -421,6 +485,7 @@ class Explorer:
             "wall_cap": self.run_wall_cap,
             "record_trace": True,
             "cold_start": True,
+            "focus_files": self.focus["files"],
         }
         res = run_worker("sim", spec, worker_env(self.repo, **variant), self.workdir, tag, self.worker_timeout)
         if "worker_error" in res or not res["runs"] or res["runs"][0].get("error"):
@@ -468,32 +533,39 @@ class Explorer:
         if best is None:
             return plan, run, attempts[0], False
         target = tgt[0]
+        import dataclasses
+
         executed = best["ops"]
         no_crash = [f for f in plan.faults if f != "crash"]
         for name, cand in (
             ("single-thread-no-faults", Plan(plan.seed, [list(executed)], 0.0, 0.0, 0.0, [], 0, "serialised in executed order, no faults")),
             ("no-faults", Plan(plan.seed, plan.threads, plan.p_line, 0.0, 0.0, [], 0, "faults off")),
             ("no-line-preemption", Plan(plan.seed, plan.threads, 0.0, plan.p_fault, 0.0, no_crash, 0, "op-boundary scheduling only")),
-            ("no-ambient-faults", Plan(plan.seed, plan.threads, plan.p_line, 0.0, plan.p_crash, ["crash"] if "crash" in plan.faults else [], plan.max_crashes, "crashes only")),
+            ("no-ambient-faults", dataclasses.replace(plan, p_fault=0.0, faults=["crash"] if "crash" in plan.faults else [], note="crashes only")),
         ):
             r = fails(cand, name)
             if r:
                 plan, best = cand, r
                 break
-        flat = [(ti, k) for ti, t in enumerate(plan.threads) for k in t]
+        # items keep their original position so that a scripted crash stays attached to its operation
+        flat = [(ti, pos, k) for ti, t in enumerate(plan.threads) for pos, k in enumerate(t)]
+        orig_ca = plan.crash_at
 
         def rebuild(items):
             th = [[] for _ in plan.threads]
-            for ti, k in items:
+            ca = None
+            for ti, pos, k in items:
+                if orig_ca and ti == orig_ca["thread"] and pos == orig_ca["index"]:
+                    ca = dict(orig_ca, index=len(th[ti]))
                 th[ti].append(k)
-            return Plan(plan.seed, th, plan.p_line, plan.p_fault, plan.p_crash, plan.faults, plan.max_crashes, plan.note)
+            return dataclasses.replace(plan, threads=th, crash_at=ca)
 
         n = 2
         while len(flat) >= 2 and attempts[0] < self.min_budget:
             size = max(1, len(flat) // n)
             subsets = [flat[i : i + size] for i in range(0, len(flat), size)]
             cands = [[x for j, s in enumerate(subsets) if j != i for x in s] for i in range(len(subsets))]
-            cands = [c for c in cands if any(k == target for _, k in c)]
+            cands = [c for c in cands if any(k == target for _, _, k in c)]
             found = None
             with cf.ThreadPoolExecutor(min(self.jobs, max(1, len(cands)))) as ex:
                 futs = [(c, ex.submit(fails, rebuild(c), f"dd{n}")) for c in cands]
@@ -527,6 +599,7 @@ class Explorer:
                     "trace": best.get("trace"),
                     "minimisation_attempts": attempts,
                     "reproduced_in_fresh_process": reproduced,
+                    "focus_files": self.focus["files"],
                     **(extra or {}),
                 },
                 f,
